@@ -940,6 +940,7 @@ def conc_judge(item):
                                  and all(r == 0 for r in got["res"]))
                 fails.append({"engine": "subjects-conc", "kind": scn["kind"], "variant": variant, "scn": scn, "i": i,
                               "pair": [scn["top"][i]["c"], scn["top"][i + 1]["c"]],
+                              "pair_name": scn["top"][i]["c"] + "||" + scn["top"][i + 1]["c"],
                               "expected": [{k: e[k] for k in ("res", "logs")} for e in allowed], "observed": got,
                               "failure": "hang" if got["hung"] else ("crashed" if got["crashed"] else "not_linearizable"),
                               "schedule": [d[1] for d in ds.decisions],
